@@ -84,6 +84,9 @@ func (t *shared) Free(txid common.Txid, p *common.Page) {
 		txp.alloctx = append(txp.alloctx, allocTxid)
 		t.cache[id] = struct{}{}
 	}
+	if common.VerifEnabled {
+		common.VerifEvent(nil, "Free", map[string]any{"txid": uint64(txid), "pgid": uint64(p.Id()), "ov": uint64(p.Overflow()), "a": uint64(allocTxid)})
+	}
 }
 
 func (t *shared) Rollback(txid common.Txid) {
